@@ -136,6 +136,41 @@ def run(ctx):
         raise AnalysisError(f"{F}: code tables are no longer literals: {e}")
     ok = len(t56) == 32 and all(isinstance(x, int) and 0 <= x < 64 for x in t56) and len(set(t56)) == 32
     ctx.ob("K3", F, "table_5b6b", "32 distinct 6-bit entries", ok, "" if ok else f"{len(t56)} entries")
+    # control flag of the decoder: decision table of self.k (q.concrete_value on the IR) over every code word the encoder can emit,
+    # built from the literal 5b/6b and 3b/4b tables in both polarities: k = 1 exactly for K28.y (6b 001111 / 110000) and for
+    # K.x.7, x in {23, 27, 29, 30}, which always use the alternate 0111 / 1000; k = 0 for every data word, including D.x.A7
+    if ok and len(t34) == 8:
+        ks = fx.find(domain="sync", target="self.k")
+
+        def pol(w, n):
+            return {w, ~w & (2**n - 1)} if _disp(w, n) else {w}
+        want = {}
+        for x in range(32):
+            for w6 in pol(t56[x], 6):
+                for y in range(8):
+                    for w4 in pol(t34[y], 4):
+                        want.setdefault((w6, w4), 0)
+                if x in (23, 27, 29, 30):
+                    want[(w6, 0b0111)] = 1
+                    want[(w6, 0b1000)] = 1
+        for x, w4 in ((17, 0b0111), (18, 0b0111), (20, 0b0111), (11, 0b1000), (13, 0b1000), (14, 0b1000)):
+            want[(t56[x], w4)] = 0
+        for w4 in range(16):
+            want[(0b001111, w4)] = 1
+            want[(0b110000, w4)] = 1
+        badk = None
+        for (w6, w4), k_ in sorted(want.items()):
+            env = {"input_msb_first[4:]": w6, "input_msb_first[:4]": w4, "code6b": w6, "code4b": w4, "self.ce": 1}
+            try:
+                got = q.concrete_value(fx, ks, env, default=0)
+            except q.NotConcrete as ex:
+                badk = f"self.k depends on `{ex}`, which the code word does not fix"
+                break
+            if got != k_:
+                badk = f"code word {w6:06b} {w4:04b} is decoded with k = {got}, the encoder emits it for a {'control' if k_ else 'data'} symbol"
+                break
+        ctx.ob("K3", F, "Decoder", "control flag: k = 1 exactly for the K28.y and K.x.7 code words among all words the encoder emits", badk is None,
+               badk or "", ks[0].line if ks else 0)
     ds = {_disp(x, 6) for x in t56}
     ok = ds <= {0, 2} or ds <= {0, -2}
     ctx.ob("K3", F, "table_5b6b", "disparity of every entry is 0 or 2 of one sign (one RD column)", ok,
